@@ -13,8 +13,12 @@ NPROC = int(os.environ.get("VERIF_NPROC", "16"))
 _STATE: Dict[str, Any] = {}
 
 
-def _init(header, modname, fnname, env):
+def _init(header, modname, fnname, env, unset=()):
+    for k in unset:
+        os.environ.pop(k, None)
     os.environ.update(env)
+    if "pandera" in sys.modules and (env or unset):
+        raise RuntimeError("pandera was imported before the worker environment was set")
     os.environ.setdefault("PYTHONHASHSEED", "0")
     import warnings
 
@@ -41,13 +45,15 @@ def _work(chunk: List[Tuple[int, Dict[str, Any]]]):
 
 
 def replay(vectors: List[Dict[str, Any]], modname: str, fnname: str, header=None,
-           nproc: int = NPROC, chunk: int = 64, env: Dict[str, str] | None = None) -> List[Dict[str, Any]]:
+           nproc: int = NPROC, chunk: int = 64, env: Dict[str, str] | None = None,
+           unset: List[str] | None = None) -> List[Dict[str, Any]]:
     """Run fn(vector) for every vector, in worker processes; returns observations in order."""
     env = env or {}
     idx = list(enumerate(vectors))
     chunks = [idx[k:k + chunk] for k in range(0, len(idx), chunk)]
     res: List[Any] = [None] * len(vectors)
-    if nproc <= 1 or len(vectors) < 8:
+    unset = unset or []
+    if (nproc <= 1 or len(vectors) < 8) and not (env or unset):
         _init(header, modname, fnname, env)
         for ch in chunks:
             for i, o in _work(ch):
@@ -55,7 +61,7 @@ def replay(vectors: List[Dict[str, Any]], modname: str, fnname: str, header=None
         return res
     ctx = mp.get_context("fork")
     with ctx.Pool(min(nproc, max(1, len(chunks))), initializer=_init,
-                  initargs=(header, modname, fnname, env)) as pool:
+                  initargs=(header, modname, fnname, env, unset)) as pool:
         for part in pool.imap_unordered(_work, chunks):
             for i, o in part:
                 res[i] = o
